@@ -61,7 +61,7 @@ class Gen:
         ntxn = ntxn if ntxn is not None else r.randint(1, 6)
         day = 1
         OKF = ["plain", "plain", "omitted", "omitted", "cost", "lot", "pair", "assign", "assert", "expr", "multi-omitted",
-               "assign-zero", "total-cost", "neg-total", "lot-and-cost", "half-unit", "three-commodity"]
+               "assign-zero", "total-cost", "neg-total"]
         ERRF = ["assert-false", "unbalanced", "zero-entry", "same-sign", "two-omitted", "zero-rate", "same-commodity-rate",
                 "bare-number", "half-unit", "three-commodity", "lot-and-cost"]
         bad_at = r.randint(0, ntxn - 1) if r.random() < 0.45 else -1
@@ -134,8 +134,10 @@ class Gen:
             return [P(a1, "%s %s" % (fmt(v), c)), a2, r.choice(accts)]
         if fl in ("cost", "total-cost", "neg-total", "lot", "lot-and-cost", "zero-rate", "same-commodity-rate"):
             others = [x for x in coms if x != c]
+            if not others and fl != "same-commodity-rate":
+                return self.txn("plain", coms, accts, prec, bal, known)
             c2 = r.choice(others) if others else c
-            if fl == "same-commodity-rate" or c2 == c:
+            if fl == "same-commodity-rate":
                 c2 = c
             rate = Fraction(r.choice(RATES))
             if fl == "zero-rate":
